@@ -162,7 +162,8 @@ def run_taskset(case) -> dict:
 
 def running_scenarios(depths=(0, 1, 3)) -> List[dict]:
     out = []
-    for kind in ("generator", "coroutine", "asyncgen", "thread", "greenlet", "hidden_outermost"):
+    for kind in ("generator", "coroutine", "asyncgen", "thread", "greenlet", "hidden_outermost", "recursive_generator",
+                 "recursive_coroutine"):
         for d in depths:
             out.append({"k": "running", "kind": kind, "depth": d})
     return out
@@ -213,6 +214,48 @@ def run_running(case) -> dict:
             callee(depth, box[0])
 
         c = co()
+        box.append(c)
+        try:
+            c.send(None)
+        except StopIteration:
+            pass
+    elif kind == "recursive_generator":
+        # a running generator that is (synchronously, with a for loop, not `yield from`) driving other activations of the SAME
+        # function: same code object, different frames; only the target's own frame was reached through the target
+        box = []
+
+        def walk(n):
+            if n == 0:
+                st = probe(box[0])
+                inner = [f for f in st.frames[1:] if f.pyframe.f_code is walk.__code__]
+                if any(f.origin is box[0] for f in inner):
+                    problems.append("recursive generator: frames of the nested activations carry the root generator as origin")
+                yield 0
+                return
+            for item in walk(n - 1):
+                yield item
+
+        g = walk(depth + 1)
+        box.append(g)
+        next(g)
+        g.close()
+    elif kind == "recursive_coroutine":
+        box = []
+
+        async def rec(n):
+            if n == 0:
+                st = probe(box[0])
+                inner = [f for f in st.frames[1:] if f.pyframe.f_code is rec.__code__]
+                if any(f.origin is box[0] for f in inner):
+                    problems.append("recursive coroutine: frames of the nested activations carry the root coroutine as origin")
+                return
+            inner_co = rec(n - 1)
+            try:
+                inner_co.send(None)     # driven by hand, not awaited: not part of the root's await chain
+            except StopIteration:
+                pass
+
+        c = rec(depth + 1)
         box.append(c)
         try:
             c.send(None)
